@@ -70,7 +70,9 @@ def build(isolated=None):
             if isolated and isolated != (ar, rq, rs):
                 continue
             name = f'M{ar.capitalize()}{i}'
-            ms.append(method(name, REQ_LOCS[rq], RESP_LOCS[rs], cs=cs, ss=ss))
+            # the isolated libraries are generated with both transports (the REST modules are imported with the package)
+            ms.append(method(name, REQ_LOCS[rq], RESP_LOCS[rs], cs=cs, ss=ss,
+                             http=('post', f'/v1/{name.lower()}', '*') if isolated and not cs else None))
             cells.append(dict(id=f'{ar}/{rq}/{rs}/' + ('isolated' if isolated else 'plain'), service=f'Svc{ar.capitalize()}', rpc=name,
                               py=names.py_method(name), arity=KIND[ar], req=REQ_LOCS[rq], resp=RESP_LOCS[rs]))
         if ms:
@@ -109,7 +111,7 @@ def build(isolated=None):
     std = desc.std_dep_names(mods)
     other.dependency.extend(std)
     main.dependency.extend(std + [other.name, dep.name])
-    req = request([other, main], 'transport=grpc', extra_dep_modules=mods, extra_dep_files=[dep])
+    req = request([other, main], 'transport=grpc+rest' if isolated else 'transport=grpc', extra_dep_modules=mods, extra_dep_files=[dep])
     desc.gate(req)
     return req, cells, dep
 
